@@ -8,7 +8,7 @@ from eth_hash.auto import keccak
 from trie import HexaryTrie
 from trie.exceptions import BadTrieProof
 
-from ..core import HarnessError, Violation, hx, unhx
+from ..core import HarnessError, Violation, deep, hx, unhx
 from ..hgen import HistoryGen, make_pool, make_values, probe_keys
 from ..hworld import HWorld
 from ..models.mpt import BLANK_ROOT, RefMPT, nibbles_of, rlp_any
@@ -326,7 +326,7 @@ def generate(rng):
     values = make_values(rng)
     probes = probe_keys(rng, pool, extra=3)
     g = HistoryGen(rng, pool, values, probes, batches=True, aborts=False, reopen=True, lookups=(0, 0))
-    hist = g.history(rng.choice([4, 8, 12, 20, 30]))
+    hist = g.history(rng.choice(deep([4, 8, 12, 20, 30], [8, 16, 30, 50, 80])))
     foreign = []
     for k in pool:
         if rng.random() < 0.6:
